@@ -17,6 +17,7 @@ CHECKS = {
     "B4": ["C09", "C10", "C12"],
     "B5": ["C13", "C14", "C15"],
     "B6": ["C19", "C16"],
+    "B7": ["C18", "C10", "C17", "C02"],
 }
 
 
